@@ -1,0 +1,6 @@
+//go:build !verif
+
+package interp
+
+// verifStep is a no-op unless built with the verif tag.
+func verifStep(*Interpreter, *frame) {}
